@@ -26,13 +26,19 @@ class SPEC:
     # the driver's `mux scenario` line is the EXPECTATION (what must hold), not a prediction of the schedule-dependent
     # observation: impl and model lines are never textually equal; the verdict is the `chk` line (see check.replay)
     replay_compare_model = False
-    rule = ("op `mux scenario <transport> <seed> <stopmid> <clients>`: one scenario on the REAL collector "
+    rule = ("op `mux scenario <transport> <seed> <stopmid> <clients> [shared=<r>]`: one scenario on the REAL collector "
             "(collector.InitCollectingProcess + Start() on 127.0.0.1:0, transport tcp | udp | tls with a certificate minted at "
             "harness start), binary built with -race and run with GORACE=halt_on_error=0 log_path=..., ONE PROCESS PER "
             "SCENARIO. C raw clients (net.Dial / tls.Dial, own IPFIX encoder) run concurrently; client i uses observation "
             "domain i+1 and numbers its messages 0..n-1 in the IPFIX sequence-number field (0 = template set, the others "
             "one data record carrying domain and number again), then closes (c), writes half a message and closes (a), stays "
-            "connected (i) or writes half a message and stays connected (h). A consumer drains GetMsgChan() for the whole "
+            "connected (i) or writes half a message and stays connected (h). With `shared=<r>` ALL clients export in observation "
+            "domain 1 with template id 256 - one stored template in the collector - and every client sends the template set "
+            "again as every r-th of its messages (an ordinary numbered message of its connection), so that template "
+            "(re-)definitions by one exporter run concurrently with data decoding by the others under the race detector; the "
+            "clients stay distinguishable by the client number in the sequence-number field ((i+1)<<16 | number) and in the "
+            "first field of the data record, by which the harness attributes the deliveries (reported as (i+1, number) like "
+            "everywhere else; what is demanded is the same). A consumer drains GetMsgChan() for the whole "
             "scenario and records (domain, number) of everything it receives. <stopmid> = k: Stop() is called once k messages "
             "have arrived, with the clients still writing; otherwise Stop() is called at the end with the i/h clients still "
             "connected. Seeded random runtime.Gosched() / sleeps <= 300 us in every client and in the consumer, some TCP "
@@ -109,8 +115,20 @@ def build_harness():
 TRANSPORTS = ["tcp", "udp", "tls"]
 
 
-def op(t, seed, stopmid, clients):
-    return "mux scenario %s %d %s %s" % (t, seed, "-" if stopmid is None else str(stopmid), ",".join("%d%s" % c for c in clients))
+def op(t, seed, stopmid, clients, shared=0):
+    return "mux scenario %s %d %s %s%s" % (t, seed, "-" if stopmid is None else str(stopmid), ",".join("%d%s" % c for c in clients),
+                                         " shared=%d" % shared if shared else "")
+
+
+def gen_shared(rng, t, nclients, lo, hi, kind):
+    """several exporters in ONE observation domain with ONE template id, each re-sending the template every r-th
+    message while the others send data: every client is busy (lo..hi messages), so that template definitions and
+    data decoding overlap. kind: shared (all close) | shared-mixed (some abrupt closes / holders)"""
+    clients = [[rng.randint(lo, hi), "c"] for _ in range(nclients)]
+    if kind == "shared-mixed":
+        for i in rng.sample(range(nclients), max(1, nclients // 4)):
+            clients[i][1] = rng.choice("aih")
+    return op(t, rng.randrange(1, 1 << 30), None, [tuple(c) for c in clients], shared=rng.randint(2, 4))
 
 
 def gen_scenario(rng, t, nclients, maxmsgs, kind):
@@ -176,6 +194,16 @@ def gen_ops(rng, tier):
         ops.append((op("tls", rng.randrange(1, 1 << 30), None, cl), "stalled-handshake"))
     # Stop() with nothing received yet: the application's only synchronisation with Start() is GetAddress() != nil
     ops.append((op("udp", rng.randrange(1, 1 << 30), None, [(0, "c")]), "start-stop"))
+    # exporters that share an observation domain and a template id and keep re-sending the template (generated last:
+    # the scenarios above are the same as before for a given seed)
+    for t in TRANSPORTS:
+        if tier == "thorough":
+            for j in range(12):
+                k = "shared" if j % 4 else "shared-mixed"
+                ops.append((gen_shared(rng, t, rng.randint(3, 12), 30, 80, k), k))
+        else:
+            for _ in range(2):
+                ops.append((gen_shared(rng, t, rng.randint(4, 8), 30, 60, "shared"), "shared"))
     return ops
 
 
